@@ -470,6 +470,21 @@ func insertUnknownBlocks(r *RNG, text string) string {
 	return strings.Join(lines, "\n") + "\n"
 }
 
+// groupRefCount: number of access-list lines of the configuration that reference the object-group.
+func groupRefCount(d *asaDev, g string) int {
+	n := 0
+	for _, ls := range d.ACLs {
+		for _, l := range ls {
+			for _, r := range refsOf(l) {
+				if r == g {
+					n++
+				}
+			}
+		}
+	}
+	return n
+}
+
 // respell rewrites access-list entries of a configuration text into an equivalent spelling: well-known ports
 // by name (as a real ASA prints them) and, in a target, the protocol by number (as a raw file may).
 func respell(r *RNG, text string, target bool) string {
@@ -780,7 +795,9 @@ func run(ctx *Ctx) *Result {
 				if strings.HasPrefix(cmd, "object-group network ") {
 					mode = strings.Fields(cmd)[2]
 				} else if strings.HasPrefix(cmd, "network-object ") || strings.HasPrefix(cmd, "no network-object ") {
-					if _, existed := c.dev.Groups[mode]; existed {
+					// only edits of a SHARED group are outside the property: a group that one access-list line
+					// alone references (on the device and in the result) is part of that line
+					if _, existed := c.dev.Groups[mode]; existed && (groupRefCount(c.dev, mode) > 1 || groupRefCount(final, mode) > 1) {
 						groupEdit = true
 					}
 				} else {
@@ -821,9 +838,32 @@ func run(ctx *Ctx) *Result {
 								if k > 0 && joined[k-1] {
 									moved = true
 								}
+								// the line that decides the packet now: is it one that the run still removes?
+								pendingGone := false
+								if name, ok := st.Bind[key]; ok {
+									for _, l := range st.ACLs[name] {
+										if _, hit := st.lineMatches(l, p); hit {
+											pendingGone = !contains(final.ACLs[final.Bind[key]], l)
+											// … or that a later command deletes (to re-add it elsewhere)
+											for _, later := range cmds[k+1:] {
+												if m := aclCmdRE.FindStringSubmatch(later); m != nil && m[1] != "" && m[2] == name && canonBody(m[4]) == l {
+													pendingGone = true
+												}
+											}
+											break
+										}
+									}
+								}
 								pred := "acl_step_unsafe_other"
-								if moved {
+								switch {
+								case strings.HasPrefix(cmds[k], "network-object ") || strings.HasPrefix(cmds[k], "no network-object "):
+									// the member list of a group that only this access-list line uses is changed in place
+									// while the lines around it are still the old ones (finding F-C14g)
+									pred = "unshared_group_members_changed_before_lines"
+								case moved && pendingGone:
 									pred = "move_down_across_pending_opposite_delete"
+								case moved:
+									pred = "move_unsafe_other"
 								}
 								res.Fail(map[string]any{"pred": pred, "backend": "asa", "first_access_group": firstOnIface},
 									fmt.Sprintf("after command %d (%s) packet %v at %s gets verdict %d, before and after the run it is %d", k, cmds[k], p, key, v, v0), c)
